@@ -18,11 +18,8 @@ func (lraw LRaw) Pack(buffer []byte) {
 
 // Unpack initializes the structure by parsing the given data.
 func (lraw *LRaw) Unpack(data []byte) (n uint, err error) {
-	target := []byte(*lraw)
-
-	if len(target) < len(data) {
-		target = make([]byte, len(data))
-	}
+	// The result is exactly the given data, whatever the receiver held before.
+	target := make([]byte, len(data))
 
 	n = uint(copy(target, data))
 	*lraw = LRaw(target)
